@@ -586,11 +586,13 @@ def select__distinct_values(self: XPathFunction, context: ta.ContextType = None)
                         yield value
                         nan = True
                 elif all(not math.isclose(value, x, rel_tol=1E-18, abs_tol=0)
-                         for x in results if isinstance(x, (int, Decimal, float))):
+                         for x in results
+                         if isinstance(x, (int, Decimal, float)) and not isinstance(x, bool)):
                     yield value
                     results.append(value)
 
-            elif value not in results:
+            elif not any(value == x and isinstance(value, bool) is isinstance(x, bool)
+                         for x in results):
                 yield value
                 results.append(value)
 
